@@ -130,6 +130,57 @@ func c11Case(c *core.Ctx, idx int) {
 		}
 		rec.Count("unmapped_then_read", 1)
 
+		// a target that is decoded into twice: the keys of its maps are already present the second
+		// time. Both inputs are unmapped before the target is read.
+		{
+			g1, err1 := mon.NewGuard(data)
+			g2, err2 := mon.NewGuard(data)
+			if err1 == nil && err2 == nil {
+				t2 := reflect.New(tc.typ)
+				var e1, e2 error
+				fault := mon.Faulting(func() {
+					e1 = tc.p.Unmarshal(g1.Data, t2.Interface())
+					e2 = tc.p.Unmarshal(g2.Data, t2.Interface())
+				})
+				rec.Eval(2)
+				lo1, hi1 := g1.Range()
+				lo2, hi2 := g2.Range()
+				var refs2 []mon.Ref
+				if fault == "" && e1 == nil && e2 == nil {
+					mon.Refs(t2.Elem(), "$", &refs2, 0)
+				}
+				g1.Free()
+				g2.Free()
+				if fault != "" || e1 != nil || e2 != nil {
+					rec.Violation("input-access", fmt.Sprintf("decoding twice into one target: %s %v %v %s", fault, e1, e2, desc()), caseExtra(tc, v, data))
+					return
+				}
+				for _, r := range refs2 {
+					if overlaps(lo1, hi1, r.Lo, r.Hi) || overlaps(lo2, hi2, r.Lo, r.Hi) {
+						rec.Violation("decoded-aliases-input", fmt.Sprintf("after decoding twice into the same target, %s points into an input buffer %s", r.Path, desc()), caseExtra(tc, v, data))
+						return
+					}
+				}
+				var walked int
+				fault = mon.Faulting(func() {
+					var rr []mon.Ref
+					mon.Refs(t2.Elem(), "$", &rr, 0)
+					for _, r := range rr {
+						walked += int(r.Hi - r.Lo)
+					}
+					_ = model.Show(t2.Elem())
+					_, _ = model.ShapeHash(t2.Elem())
+					// read every map through its keys: a key that points into unmapped memory faults
+					probeMaps(t2.Elem(), 0)
+				})
+				if fault != "" {
+					rec.Violation("decoded-aliases-input", fmt.Sprintf("reading a target that was decoded into twice faulted after both input buffers were unmapped: %s %s", fault, desc()), caseExtra(tc, v, data))
+					return
+				}
+				rec.Count("twice_decoded_targets", 1)
+			}
+		}
+
 		// --- heap input, overwritten and re-used afterwards ---
 		in := append([]byte(nil), data...)
 		t2 := reflect.New(tc.typ)
@@ -162,6 +213,43 @@ func c11Case(c *core.Ctx, idx int) {
 		}
 		if rec.WantSample() && len(refs) > 1 && len(data) < 60 {
 			rec.Sample(map[string]any{"config": tc.name, "type": typeString(tc.typ), "value": model.Show(v), "bytes": fmt.Sprintf("%x", data), "strings_and_byte_slices_in_decoded_value": len(refs), "input": "PROT_READ mapping, unmapped before the decoded value was compared"})
+		}
+	}
+}
+
+// probeMaps looks every key of every map up again (hashing and comparing the key bytes)
+func probeMaps(v reflect.Value, depth int) {
+	if depth > 10 {
+		return
+	}
+	switch v.Kind() {
+	case reflect.Ptr, reflect.Interface:
+		if !v.IsNil() {
+			probeMaps(v.Elem(), depth+1)
+		}
+	case reflect.Struct:
+		if v.Type() == model.TimeT {
+			return
+		}
+		for i := 0; i < v.NumField(); i++ {
+			if v.Type().Field(i).IsExported() {
+				probeMaps(v.Field(i), depth+1)
+			}
+		}
+	case reflect.Slice:
+		for i := 0; i < v.Len(); i++ {
+			probeMaps(v.Index(i), depth+1)
+		}
+	case reflect.Map:
+		it := v.MapRange()
+		for it.Next() {
+			k := reflect.New(v.Type().Key()).Elem()
+			k.Set(it.Key())
+			_ = v.MapIndex(k)
+			if k.Kind() == reflect.String {
+				_ = strings.Clone(k.String())
+			}
+			probeMaps(it.Value(), depth+1)
 		}
 	}
 }
